@@ -91,6 +91,7 @@ type Env struct {
 	OnBuilder    func()
 	OnMiddleware func()
 	OnCall       func()
+	OnCallRoute  func(rt types.Route, h *Hnd) // sees the Route value the CallFunc received (before the handler runs)
 	RecordMW     bool
 	NotFoundOf   map[string]*Hnd // router name -> its not-found handler
 	Group404     *Hnd
@@ -239,6 +240,9 @@ func (e *Env) Call(w http.ResponseWriter, r *http.Request, rt types.Route, h *Hn
 	}
 	if e.OnCall != nil {
 		e.OnCall()
+	}
+	if e.OnCallRoute != nil {
+		e.OnCallRoute(rt, h)
 	}
 	if h == nil {
 		if o, _ := r.Context().Value(obsKey{}).(*Obs); o != nil {
